@@ -906,7 +906,12 @@ impl<'a> DriverState<'a> {
 
     fn leave_output(&mut self, world: &mut World, j: usize, leave: Leave) {
         let gv = self.gv;
-        if gv.jobs[j].kind == Kind::Output {
+        if gv.jobs[j].kind != Kind::Output {
+            let mut disk = self.shared.disk.borrow_mut();
+            for p in gv.jobs[j].parts.iter() {
+                disk.remove(p);
+            }
+        } else {
             let mut disk = self.shared.disk.borrow_mut();
             for p in gv.jobs[j].parts.iter() {
                 match leave {
@@ -981,8 +986,12 @@ impl<'a> DriverState<'a> {
                 }
             }
             _ => {
+                // a temp job writes to the same path and the file is removed afterwards: whatever an
+                // earlier incarnation of this job as an Output job left on disk is gone
+                let mut disk = self.shared.disk.borrow_mut();
                 for (p, v) in vals.iter() {
                     self.tmp.insert(p.clone(), *v);
+                    disk.remove(p);
                 }
             }
         }
